@@ -16,9 +16,11 @@ for d in sorted(glob.glob(os.path.join(V, "seeded/C??-*")), key=_key):
     ok = "yes" if m["confirmed_breaks_property_and_passes_suite"] else "NO"
     rows.append("| %s | %s | %s | %s | %s | %s |" % (name, s, ok, ",".join(m["caught_by"]) or "MISSED", ",".join(walls), rem.get(name, "")))
 missed_first = sum(1 for r in rem.values() if r.startswith("missed at first"))
-head = ("%d changes, %d caught by the quick tier as it was when the change arrived, the other %d after the strengthening noted in the last column; "
-        "none is missed now.\n\n| seeded change | what it breaks (author's summary, truncated) | confirmed | caught by | wall s | remark |\n|---|---|---|---|---|---|\n"
-        % (len(rows), len(rows) - len([n for n in rem if rem[n].startswith(("missed", "needed", "TL-B generator"))]), len([n for n in rem if rem[n].startswith(("missed", "needed", "TL-B generator"))])))
+strengthened = len([n for n in rem if rem[n].startswith(("missed", "needed", "TL-B generator"))])
+not_caught = len([n for n in rem if rem[n].startswith("NOT")])
+head = ("%d changes: %d caught by the quick tier of some check as it was when the change arrived, %d after the strengthening noted in the "
+        "last column, %d not caught (see its remark).\n\n| seeded change | what it breaks (author's summary, truncated) | confirmed | caught by | wall s | remark |\n|---|---|---|---|---|---|\n"
+        % (len(rows), len(rows) - strengthened - not_caught, strengthened, not_caught))
 txt = open(os.path.join(V, "DESIGN.md")).read()
 a, b = "<!-- SEEDED-TABLE-BEGIN -->", "<!-- SEEDED-TABLE-END -->"
 assert a in txt and b in txt
